@@ -7,6 +7,8 @@ import (
 	"strconv"
 	"testing"
 
+	"github.com/paulsonkoly/calc/combinator"
+
 	"verif/core"
 	"verif/tape"
 )
@@ -131,5 +133,21 @@ func BenchmarkRun(b *testing.B) {
 	var p Prop
 	for i := 0; i < b.N; i++ {
 		p.Run(tape.New(core.SeedFor(11, "C13", i)))
+	}
+}
+
+// TestChooseNilOnSuccessQuirk documents (does not assert) a result-building
+// quirk that the generator keeps out of its parsers: when OnSuccess succeeds
+// with a nil slice, Choose returns nil and drops the gate's nodes.
+func TestChooseNilOnSuccessQuirk(t *testing.T) {
+	e := &expr{kind: kAccept, set: "a"}
+	gate := build(e)
+	nilF := combinator.Fmap(func([]combinator.Node) []combinator.Node { return nil }, combinator.Ok())
+	emptyF := combinator.Fmap(func([]combinator.Node) []combinator.Node { return []combinator.Node{} }, combinator.Ok())
+	for i, s := range []combinator.Parser{nilF, emptyF} {
+		name := []string{"nil", "empty"}[i]
+		sim := &simLexer{ents: []simEntry{{tok: simTok{letter: 'a'}}}, end: 1}
+		nodes, err := combinator.Choose(combinator.Conditional{Gate: gate, OnSuccess: s})(sim)
+		t.Logf("Choose([a] : Fmap(returns %s slice, Ok)) on \"a\": nodes=%v err=%v", name, nodes, err)
 	}
 }
